@@ -183,12 +183,12 @@ def certMain : IO Unit := do
 /-- projection onto the control skeleton: the auxiliary flow attributes are reset -/
 def skel (c : Core) : Core :=
   { c with err := .none, hasResp := false, respKind := .norm, reqStream := false, respStream := false, reqWs := false,
-           connect2xx := true, reqBody := false, respBody := false, draining := false }
+           connect2xx := true, reqBody := false, respBody := false }
 
 def auxAll : List (Core → Core) :=
   [ErrK.none, .killed, .other].flatMap fun e => bools.flatMap fun hr => [RespKind.norm, .ws101, .up101, .invalid].flatMap fun rk =>
-  bools.flatMap fun rs => bools.flatMap fun ps => bools.flatMap fun ws => bools.flatMap fun c2 => bools.map fun dr =>
-    fun c => { c with err := e, hasResp := hr, respKind := rk, reqStream := rs, respStream := ps, reqWs := ws, connect2xx := c2, draining := dr }
+  bools.flatMap fun rs => bools.flatMap fun ps => bools.flatMap fun ws => bools.map fun c2 =>
+    fun c => { c with err := e, hasResp := hr, respKind := rk, reqStream := rs, respStream := ps, reqWs := ws, connect2xx := c2 }
 
 /-- `mv_c03 checkinv`: is the set of reachable skeletons inductive when the auxiliary attributes are arbitrary? -/
 def checkInvMain : IO Unit := do
